@@ -66,6 +66,11 @@ def main():
                 pj = json.loads(l)
                 if pj["id"] == prop:
                     anchors = [a.replace("src/tola/", "") for a in pj["anchors"]["files"]]
+        # … plus the core data classes every property's code path runs through (constructors, defaults, row lists) and what the property's
+        # harness module names as further dependencies (`EXTRA_ANCHORS`): seeded changes C20g (Scaffold.__init__) and C06j (fasta/stream.py) lay outside
+        # the anchor files and were run with the small budget
+        anchors = sorted(set(anchors) | {"assembly/scaffold.py", "assembly/fragment.py", "assembly/gap.py", "assembly/assembly.py"}
+                         | set(getattr(mod, "EXTRA_ANCHORS", [])))
         changed = sorted(k for k in set(now) | set(ref) if now.get(k) != ref.get(k) and any(k.startswith(a + "::") for a in anchors))
         if changed:
             out.notes.append("source fingerprints changed (budget escalated to thorough): " + ", ".join(changed[:8]))
